@@ -206,6 +206,11 @@ func (n *Native) runBatch(cases []ReplayCase, perBatchTimeout time.Duration) (ma
 		if got >= len(rest) {
 			break
 		}
+		if got > 0 && strings.HasPrefix(results[rest[got-1].ID].Outcome, "hang:") {
+			// the runner's own watchdog recorded the hang and left
+			rest = rest[got:]
+			continue
+		}
 		// the case after the last result is the one that crashed or hung
 		bad := rest[got]
 		oc := "crash"
